@@ -56,7 +56,10 @@ def clampu(dt, u):
 
 # run-length prefix spanning more than one value (offsets of the run take bits): a low value under
 # 20%, a long duplicate run reaching >= 80% cumulative, then outliers; needs few prefixes (low level)
-EXTRA_SHAPES = ["rl_wide"]
+# rl_range: one value holding 80-95% with a few values just below and just above it (with a
+# budget of two ranges the run-length range is [lowest .. dominant], i.e. not single-valued);
+# rl_range_cum: the same shape in the first differences (integer types, wrapping)
+EXTRA_SHAPES = ["rl_wide", "rl_range", "rl_range_cum"]
 SHAPES = ["constant", "two_pow2", "extremes", "lattice", "sparse", "poly", "uniform", "small", "clusters",
           "sorted_dups", "floats_special", "two_lattices", "near_full", "walk", "zipf"]
 
@@ -175,6 +178,22 @@ def gen(dt, shape, n, rng):
         while len(us) < n:
             us.append(rng.choice([min(uhi, a + rng.randint(8, 900)), rng.randint(ulo, uhi)]))
         rng.shuffle(us)
+    elif shape in ("rl_range", "rl_range_cum"):
+        n = max(n, rng.randint(1050, 2600))
+        v = rng.randint(ulo + min(1000, span // 4), uhi - min(1000, span // 4))
+        nb = int(n * rng.uniform(0.8, 0.95))
+        spread = rng.choice([3, 9, 60])
+        us = [v] * nb
+        while len(us) < n:
+            us.append(clampu(dt, v + rng.choice([-1, 1]) * rng.randint(1, spread)))
+        rng.shuffle(us)
+        if shape == "rl_range_cum" and dt[0] in "iu" or dt in ("tsmicros", "tsnanos"):
+            acc = rng.randint(ulo, uhi)
+            out = []
+            for u in us:
+                out.append(acc)
+                acc = (acc + (u - v) + rng.choice([0, 1000])) % (1 << w) if False else (acc + (u - v) + 1000) % (1 << w)
+            us = out
     elif shape == "floats_special":
         if dt[0] != "f":
             return gen(dt, "uniform", n, rng)
